@@ -8,6 +8,7 @@
 import Lace.Proofs.CmdInteger
 import Lace.Proofs.CmdTransport
 import Lace.Proofs.CmdNoPanic
+import Lace.Proofs.CmdScript
 namespace Lace.C14
 open Lace.Cmd Lace.CmdGrammar
 
@@ -180,6 +181,35 @@ theorem session_no_panic (a : Option (List Char)) (b : List Char) (site : String
     · exact valid_of_textLines h hne
     · exact valid_of_textLines h hne
   exact parseLine_noPanic hv s
+
+/-- **A script means what the grammar says, whatever the transport.**  For every `--command`
+argument `a` (or none) and every valid-UTF-8 standard input `b`, provided no line of the script
+names `sudo` (K1): the session — every command and every error report that looping
+`Command::read_from` yields, in order — is exactly `CmdGrammar.script` of the combined text
+`a ++ "\n" ++ b` (split at `;` and newline, trim, drop blank lines, read each line by the
+grammar), and it ends with the end of the input. -/
+theorem session_eq_script (a : Option (List Char)) (b : List Char)
+    (hns : ∀ l ∈ splitLines (combined a b), firstWord (trim l) ≠ "sudo".toList) :
+    session (Reader.from a (encode b)) =
+      { events := script (combined a b), ending := .eof } := by
+  have hcomb : session (Reader.from a (encode b)) = sessionL (textLines (combined a b)) := by
+    cases a with
+    | none =>
+      rw [session_eq_lines]
+      simp [combined, textLines, linesAux]
+    | some a =>
+      rw [session_eq_lines]
+      simp only [Option.getD_some, combined]
+      have h := sessionL_join a b [] '\n' (by decide)
+      simp only [textLines] at h ⊢
+      exact h.symm
+  rw [hcomb, script_eq, nonBlank_textLines]
+  apply sessionL_spec
+  intro l hl hne
+  exact ⟨valid_of_textLines hl hne, hns l (mem_splitLines_of_mem_textLines hl)⟩
+
+example : script (combined (some "help;bogus".toList) "move r1 5\nquit".toList) =
+    [some .help, none, some (.move (.reg 1#3) 5#16), some .quit] := by decide
 
 /-- The grammar's name tables are unambiguous: no word (in any letter case) names two
 commands, so `lookup` finding the first match finds the only one. -/
